@@ -259,7 +259,7 @@ CHECKS = {
                       "times. Two instances of a name whose certainly-live intervals intersect, or an instance served after its close had returned, is a violation. "
                       "A second facet runs the same programs on file-backed swamps where every summoner writes through its instance (before any teardown of it begins) and the "
                       "shim keeps write handles open 0-12 ms longer on close: two write handles open on one swamp file at the same time is a violation.",
-        "level_note": "Detection is probabilistic (schedules are perturbed, not enumerated); a reported violation is real. Site names carry statement indices; a stale name fails loudly (requireSites).",
+        "level_note": "Detection is probabilistic (schedules are perturbed, not enumerated); a reported violation is real. Site names are hashes of the statement text; when a named statement is edited the plans pausing there become inert and the run says so (note + counter) instead of failing.",
         "assumptions": ["close-after-idle 600 s: nothing but the harness closes instances", "Destroy() is never issued on a handle already Close()d",
                         "harness writes go through an instance only before its teardown begins (later ones are C16's dead-instance finding)",
                         "write handles on a removed / renamed-over file no longer count for the path (chroniclerV2.Destroy leaks its handle on the unlinked file)"],
